@@ -183,9 +183,13 @@ func (conn *wsConn) OnPacket(fn func(*protocol.Packet, error)) {
 					return
 				}
 
-				p := <-conn.packetCh
-
-				fn(p, nil)
+				// wake up when the conn is closed: an idle dispatcher used to
+				// block here forever, one leaked goroutine per connection
+				select {
+				case p := <-conn.packetCh:
+					fn(p, nil)
+				case <-conn.closeCh:
+				}
 			}
 		}()
 	})
